@@ -212,7 +212,9 @@ fn fail(v: &mut Vec<Value>, x: Value) {
 
 type Fails = (Vec<Value>, Vec<Value>, Vec<Value>, Vec<Value>, Vec<Value>, Vec<Value>);
 
-fn run_docs(docs: &[String]) -> (u64, Fails) {
+fn run_docs(docs: &[String]) -> (u64, Fails, u64, Vec<Value>) {
+    let mut nontrivial = 0u64;
+    let mut samples: Vec<Value> = vec![];
     let (mut n, mut f_allow, mut f_text, mut f_idem, mut f_clean, mut f_depr, mut f_panic) = (0u64, vec![], vec![], vec![], vec![], vec![], vec![]);
     let configs: [(&str, bool, bool); 4] = [("strict", false, false), ("compat", true, false), ("strict+remove_reply_fallback", false, true), ("compat+remove_reply_fallback", true, true)];
     for d in docs {
@@ -242,6 +244,13 @@ fn run_docs(docs: &[String]) -> (u64, Fails) {
             match r {
                 Err(_) => fail(&mut f_panic, json!({"document": d, "config": cname, "observed": "panic"})),
                 Ok((t0, plain, _t1, out, t2, out_reserialized, out_twice, same_object_twice)) => {
+                    // non-trivial: the parsed input has at least one element / non-text node (so the sanitizer has a decision to take)
+                    if t0.iter().any(|t| !matches!(t, T::Text(_))) {
+                        nontrivial += 1;
+                        if samples.len() < 3 && out != plain {
+                            samples.push(json!({"document": d, "config": cname, "sanitized": out}));
+                        }
+                    }
                     let mut why = vec![];
                     judge(&t2, 0, compat, rr, &mut why);
                     if !why.is_empty() {
@@ -281,20 +290,27 @@ fn run_docs(docs: &[String]) -> (u64, Fails) {
             }
         }
     }
-    (n, (f_allow, f_text, f_idem, f_clean, f_depr, f_panic))
+    (n, (f_allow, f_text, f_idem, f_clean, f_depr, f_panic), nontrivial, samples)
 }
 
 pub fn run(tier: &str) -> Report {
-    let docs = documents(tier == "thorough");
+    let mut docs = documents(tier == "thorough");
+    docs.sort();
+    docs.dedup();
     let nthreads = 12usize;
     let chunks: Vec<Vec<String>> = (0..nthreads).map(|t| docs.iter().skip(t).step_by(nthreads).cloned().collect()).collect();
     let handles: Vec<_> = chunks.into_iter().map(|c| std::thread::spawn(move || run_docs(&c))).collect();
     let mut n = 0u64;
     let mut acc: Fails = Default::default();
+    let (mut nontrivial, mut samples) = (0u64, vec![]);
     for h in handles {
         match h.join() {
-            Ok((k, f)) => {
+            Ok((k, f, nt, sm)) => {
                 n += k;
+                nontrivial += nt;
+                if samples.len() < 4 {
+                    samples.extend(sm);
+                }
                 for x in f.0 { fail(&mut acc.0, x); }
                 for x in f.1 { fail(&mut acc.1, x); }
                 for x in f.2 { fail(&mut acc.2, x); }
@@ -305,6 +321,11 @@ pub fn run(tier: &str) -> Report {
             Err(_) => fail(&mut acc.5, json!({"observed": "enumeration thread panicked"})),
         }
     }
+    *super::EXTRA.lock().unwrap() = Some((
+        nontrivial,
+        "cases are (document, sanitizer configuration) pairs over the de-duplicated document list; a case is non-trivial when the parsed input contains at least one element or non-text node; distinct by construction (documents are de-duplicated, configurations differ)".to_owned(),
+        samples,
+    ));
     Report {
         bound: format!("{} documents (20 element names x attribute singles and ordered pairs x 3 contents, all ordered name pairs, fragment sequences up to length {}, nesting 98..103) x 4 sanitizer configurations", docs.len(), if tier == "thorough" { 5 } else { 4 }),
         cases: n,
